@@ -41,6 +41,15 @@ M = [
  ('scale-eq-lb', 'direct_method.py', "                        lb = mc.lb/scale\n                        canon = mc.canon/scale\n                        c = lb==canon", "                        lb = mc.lb\n                        canon = mc.canon/scale\n                        c = lb==canon", ['C14']),
  ('scale-vcontrol-missing', 'sampling_method.py', "            self.V_control[i].append(opti.variable(v.shape[0], v.shape[1], scale=stage._scale[v], domain=stage._catalog[v]['domain']))", "            self.V_control[i].append(opti.variable(v.shape[0], v.shape[1], scale=stage._scale[v]*0+1, domain=stage._catalog[v]['domain']))", ['C14']),
  ('dc-helper-scale', 'direct_collocation.py', "xc = opti.variable(stage.nx, self.degree, scale=repmat(scale_x, 1, self.degree))", "xc = opti.variable(stage.nx, self.degree, scale=repmat(scale_x, 1, self.degree)**2)", ['C14']),
+ # --- C06
+ ('geo-normalized', 'sampling_method.py', "            vec.append(vec[-1]+base)\n            base *= g", "            vec.append(vec[-1]+base)\n            base *= g*g", ['C06']),
+ ('geo-scale-first', 'sampling_method.py', "    def scale_first(self, N):\n        return self.normalized(N)[1]", "    def scale_first(self, N):\n        return 1.0/N", ['C06']),
+ ('intg-grid', 'sampling_method.py', "t_local = linspace(self.control_grid[k], self.control_grid[k+1], self.M+1)", "t_local = linspace(self.control_grid[k], self.control_grid[k]+(self.control_grid[-1]-self.control_grid[0])/self.N, self.M+1)", ['C06', 'C01']),
+ ('dtcontrol-last', 'sampling_method.py', "            return self.control_grid[-1]-self.control_grid[-2]\n        return", "            return self.control_grid[1]-self.control_grid[0]\n        return", ['C06']),
+ ('free-finalize', 'sampling_method.py', "        opti.subject_to(control_grid[-1]==tf)", "        pass", ['C06']),
+ ('localize-t0-row', 'sampling_method.py', "            yield (t0_local[k]+Tk==t0_local[k+1],{})", "            yield (t0_local[k]+Tk==t0_local[k+1],{}) if k>0 else (t0_local[k]+2*Tk==t0_local[k+1],{})", ['C06']),
+ ('uniform-constrain', 'sampling_method.py', "        return (Tnext==T,{})", "        return (Tnext>=T,{})", ['C06']),
+ ('function-grid-call', 'sampling_method.py', "    def __call__(self, t0, T, N):\n        n = self.normalized(N)\n        return t0 + hcat(n)*T\n\n    def normalized(self, N):\n        return self.normalized_fun(N)", "    def __call__(self, t0, T, N):\n        n = self.normalized(N)\n        return t0 + hcat(n[:-1]+[n[-1]*1.0001])*T\n\n    def normalized(self, N):\n        return self.normalized_fun(N)", ['C06']),
 ]
 
 def main():
